@@ -90,6 +90,14 @@ def shaped(g, rng):
                             [mapgen.F("ID", mapgen.INT), mapgen.F("Label", mapgen.STR), mapgen.F("Title", mapgen.STR)], src_kind="new", sname="Ticket")
         sp["manual"] = {"write": None, "read": "read", "readptr": ptr, "recvval": False, "rfields": ["label", "title"]}
         out.append(("hook-owns-unexported", sp))
+    # getters whose own name begins with "Set" (seeded change C15-5): Settings() / Setup() are matched under their whole name,
+    # only SETTERS lose the prefix; `up` is the remainder Setup would collide with
+    for sd in ("dest", "src"):
+        ms = [mapgen.F("settings", mapgen.STR, get=True, set=True), mapgen.F("setup", mapgen.INT, get=True, set=True), mapgen.F("up", mapgen.INT, get=True, set=True),
+              mapgen.F("settled", mapgen.STR, get=True)]
+        pl = [mapgen.F("Settings", mapgen.STR), mapgen.F("Setup", mapgen.INT), mapgen.F("Up", mapgen.INT), mapgen.F("Settled", mapgen.STR)]
+        sp = mapgen.mk_spec(pl, ms, dest_kind="new") if sd == "dest" else mapgen.mk_spec(ms, pl, src_kind="new")
+        out.append(("getter-named-set-" + sd, sp))
     return out
 
 
